@@ -65,13 +65,22 @@ def check(run):
         lf = q.linform(f, ps[0]['init'], sub) if ps else None
         want = ({'p.buffer.size()': 1}, 20 + sizes[kind])
         run.check(lf == want, 'R14', 'record-length', PC + '::log_' + kind, f.loc(), 'packet_size is %s, must be sizeof(ip_header) + sizeof(%s_header) + p.buffer.size() = payload + %d' % (q.render(f, ps[0]['init']) if ps else None, kind, 20 + sizes[kind]), 'payload + %d' % (20 + sizes[kind]))
-        ws = [c for c in f.calls() if q.callee_name(c) == 'sim::aux::write']
-        args = [q.render(f, c['args'][1]) for c in ws]
-        run.check(len(ws) == 4 and args[2:] == ['packet_size', 'packet_size'], 'R14', 'record-header', PC + '::log_' + kind, f.loc(), 'the record header is not (secs, usecs, packet_size, packet_size): ' + str(args), '16-byte record header with the length written twice')
-        seq = [c for c in f.calls() if q.callee_name(c) in ('sim::aux::write_ip_header', 'sim::aux::write_%s_header' % kind) or (c.get('callee') or '').endswith('::write') and q.render(f, c.get('obj')) == 'm_file']
-        names = [q.callee_name(c).split('::')[-1] if q.callee_name(c).startswith('sim::aux::') else 'payload' for c in seq]
-        order_ok = names == ['write_ip_header', 'write_%s_header' % kind, 'payload'] and all(q.precedes(f, seq[i], seq[i + 1]) for i in range(len(seq) - 1)) and all(q.precedes(f, w, seq[0]) for w in ws)
+        # the writes, looked up in log_* itself and in helpers it calls (q.flat_calls), arguments rendered in the caller's terms
+        BODY = ('sim::aux::write_ip_header', 'sim::aux::write_%s_header' % kind)
+        is_w = lambda g, c: q.callee_name(c) == 'sim::aux::write' or q.callee_name(c) in BODY or ((c.get('callee') or '').endswith('::write') and q.render(g, c.get('obj')) in ('m_file', 'file'))
+        flat = q.flat_calls(f, is_w)
+        wsf = [x for x in flat if q.callee_name(x.call) == 'sim::aux::write']
+        ws = [x.anchor for x in wsf]
+        args = [x.arg(1) for x in wsf]
+        ctxs = [f] + [g for g in {id(x.owner): x.owner for x in wsf}.values() if g is not f]
+        run.check(len(wsf) == 4 and args[2:] == ['packet_size', 'packet_size'], 'R14', 'record-header', PC + '::log_' + kind, f.loc(), 'the record header is not (secs, usecs, packet_size, packet_size): ' + str(args), '16-byte record header with the length written twice')
+        seqf = [x for x in flat if q.callee_name(x.call) != 'sim::aux::write']
+        names = [q.callee_name(x.call).split('::')[-1] if (q.callee_name(x.call) or '').startswith('sim::aux::') else 'payload' for x in seqf]
+        order_ok = names == ['write_ip_header', 'write_%s_header' % kind, 'payload'] and q.flat_ordered(f, wsf + seqf)
         run.check(order_ok, 'R14', 'record-body', PC + '::log_' + kind, f.loc(), 'after the record header the body is not exactly ip header, %s header, payload (found %s)' % (kind, names), 'ip header, transport header, payload, in that order')
+        seq = [x.call for x in seqf] if all(x.owner is f for x in seqf) else []
+        if seqf and not seq:
+            run.unrecognised('R14', 'record-body', PC + '::log_' + kind, f.loc(), 'the ip/transport header writes were moved into a helper: argument rules cannot be evaluated')
         if len(seq) == 3:
             a3, a4 = q.render(f, seq[0]['args'][3]), q.render(f, seq[0]['args'][4])
             run.check(a3 == 'src.address().to_v4()' and a4 == 'dst.address().to_v4()', 'R14', 'ip-addresses', PC + '::log_' + kind, f.loc(seq[0]),
@@ -87,30 +96,29 @@ def check(run):
                 run.check(q.render(f, seq[1]['args'][3]) == 'p.byte_counter', 'R14', 'tcp-seq-arg', PC + '::log_tcp', f.loc(seq[1]), 'TCP sequence number is not p.byte_counter', 'sequence = p.byte_counter')
             run.check(q.render(f, seq[1]['args'][1 if kind == 'tcp' else 2]) == 'p.from.port()', 'R14', 'src-port', PC + '::log_' + kind, f.loc(seq[1]), 'source port is not the sender\'s port', 'source port = p.from.port()')
         # timestamp: accepted idiom only, identical in both
-        casts32 = [n for n in f.all_nodes() if n['k'] == 'cast' and n.get('explicit') and 'uint32_t' in f.ty(n)]
+        casts32 = [(g, n) for g in ctxs for n in g.all_nodes() if n['k'] == 'cast' and n.get('explicit') and 'uint32_t' in g.ty(n)]
         ok_ts = True
         why = ''
         txts = []
-        for n in casts32:
-            t = q.render(f, n['e'])
+        for g, n in casts32:
+            t = q.render(g, n['e'])
             if 'time_since_epoch' not in t and 'now' not in t:
                 continue
             txts.append(t)
-            secs_ok = 'duration_cast' in t and 'seconds' in f.ty(q.strip_casts(n['e']).get('obj', n['e'])) if False else None
-            full_us = ('micro' in _dc_type(f, n['e']) or 'ratio<1, 1000000>' in _dc_type(f, n['e']) or 'ratio<1, 1000000000>' in _dc_type(f, n['e'])) and ('- ' not in t and 'secs' not in t)
+            full_us = ('micro' in _dc_type(g, n['e']) or 'ratio<1, 1000000>' in _dc_type(g, n['e']) or 'ratio<1, 1000000000>' in _dc_type(g, n['e'])) and ('- ' not in t and 'secs' not in t)
             if full_us:
                 ok_ts = False
                 why = 'the full microsecond tick count (%s) is narrowed to 32 bits before it is split: timestamps wrap after 2^32 us (71.6 simulated minutes) and go backwards' % t[:90]
         sig_ts[kind] = txts
         run.check(ok_ts and (len(txts) >= 2 or bool(why)), 'R14', 'timestamp-split', PC + '::log_' + kind, f.loc(), why or 'seconds / sub-second microseconds idiom not found', 'seconds narrowed from whole seconds, microseconds from the sub-second remainder')
-        ep = [v for n in f.all_nodes() if n['k'] == 'decl' for v in n['vars'] if v.get('name') == 'sim_start_time']
-        if not ep or not [v for n in f.all_nodes() if n['k'] == 'decl' for v in n['vars'] if v.get('name') == 'now']:
+        ep = [v for g in ctxs for n in g.all_nodes() if n['k'] == 'decl' for v in n['vars'] if v.get('name') == 'sim_start_time']
+        nowd = [(g, v) for g in ctxs for n in g.all_nodes() if n['k'] == 'decl' for v in n['vars'] if v.get('name') == 'now']
+        if not ep or not nowd:
             run.broke('log_%s: locals sim_start_time / now not found (renamed?)' % kind)
             continue
         run.check(bool(ep) and q.int_value(ep[0]['init']) == 441794304, 'R14', 'epoch', PC + '::log_' + kind, f.loc(), 'capture epoch literal changed', 'fixed epoch 441794304')
         run.check(args[:2] == ['(sim_start_time + secs)', 'usecs'], 'R14', 'timestamp-fields', PC + '::log_' + kind, f.loc(), 'timestamp fields are ' + str(args[:2]), 'ts_sec = epoch + secs, ts_usec = usecs')
-        nowd = [v for n in f.all_nodes() if n['k'] == 'decl' for v in n['vars'] if v.get('name') == 'now']
-        run.check(bool(nowd) and q.render(f, nowd[0]['init']).endswith('high_resolution_clock::now()'), 'R14', 'timestamp-clock', PC + '::log_' + kind, f.loc(), 'timestamp is not taken from the virtual clock at logging time', 'now = high_resolution_clock::now()')
+        run.check(bool(nowd) and q.render(nowd[0][0], nowd[0][1]['init']).endswith('high_resolution_clock::now()'), 'R14', 'timestamp-clock', PC + '::log_' + kind, f.loc(), 'timestamp is not taken from the virtual clock at logging time', 'now = high_resolution_clock::now()')
     run.check(sig_ts.get('tcp') == sig_ts.get('udp'), 'R14', 'timestamp-siblings', PC + '::log_tcp vs log_udp', '', 'log_tcp and log_udp compute the timestamp differently: %s vs %s' % (sig_ts.get('tcp'), sig_ts.get('udp')), 'identical timestamp expressions')
     for hname, hsz in (('write_udp_header', 8),):
         f = fx.fn1('sim::aux::' + hname)
